@@ -636,18 +636,18 @@ func genArchive(c *ctx) {
 				if rest := stream[len(c15Concat(seen)):]; len(rest) > 0 {
 					full = append(append([][]byte(nil), seen...), rest)
 				}
+				if refused := c15RefusedNames(nodes); refused != "" {
+					// the stream is fine: the writer refuses an entry because of its name
+					c15ViolateCapped(c, 3, "entry-name-refused:"+refused, "the archive writer refuses an entry whose name is a valid single path element",
+						fmt.Sprintf("%s tree=%s got=%s", key, c15DescNodes(nodes), res))
+					break
+				}
 				if bad := c15UndecodableHeader(rows); bad >= 0 {
 					// the stream is fine: the real decoder does not invert the real encoder on this header
 					r := rows[bad]
 					c.violate("header-roundtrip:"+strings.TrimPrefix(kind, "compressible-headers:"), "an entry header produced by the real encoder (marshalSourceFile + zlib + base64) does not decode to itself through the real decoder",
 						fmt.Sprintf("%s: entry %d of %d, relative path of %d components / %d bytes (first component %.40q): header of %d bytes; writer result %.60s; header=%s",
 							key, bad+1, len(rows), len(r.rel), len(strings.Join(r.rel, "/")), r.rel[0], len(r.header), res, r.header))
-					break
-				}
-				if refused := c15RefusedNames(nodes); refused != "" {
-					// the stream is fine: the writer refuses an entry because of its name
-					c15ViolateCapped(c, 3, "entry-name-refused:"+refused, "the archive writer refuses an entry whose name is a valid single path element",
-						fmt.Sprintf("%s tree=%s got=%s", key, c15DescNodes(nodes), res))
 					break
 				}
 				c.violate(c15TreeKey(tmp, &seq, rootSrc, full, "ok|"+want, mode), "the tree written from the archive stream differs from the source tree",
@@ -835,7 +835,7 @@ func genArchive(c *ctx) {
 		}
 		for _, kind := range []string{"to-zero", "by-one", "to-half", "mid-read"} {
 			vi, victim, kind := vi, victim, kind
-			c15Case(c, "shrink", fmt.Sprintf("victim=%s kind=%s", strings.Join(victim.rel, "/"), kind), func() {
+			c15Case(c, "shrink", fmt.Sprintf("tree=%s victim=%s (%d bytes) kind=%s (shortened between scan and read)", c15DescNodes(shrinkTree), strings.Join(victim.rel, "/"), len(victim.data), kind), func() {
 				root := newSrc(shrinkTree)
 				a, rd, _, rootSrc := scan(root)
 				vp := filepath.Join(append([]string{root}, victim.rel...)...)
@@ -1033,7 +1033,14 @@ func genArchive(c *ctx) {
 // c15Case runs one case of the generator: a real function that panics or does not return
 // on it is an observation about the implementation (a violation with the case), never a
 // crash or a hang of the harness.
+var c15HungFamilies = map[string]bool{}
+
 func c15Case(c *ctx, kind, desc string, f func()) {
+	if c15HungFamilies[kind] {
+		// a case of this family did not return: its goroutine is still spinning; the family has been reported
+		c.count("skipped-after-hang:" + kind)
+		return
+	}
 	done := make(chan any, 1)
 	go func() {
 		defer func() { done <- recover() }()
@@ -1047,7 +1054,8 @@ func c15Case(c *ctx, kind, desc string, f func()) {
 			}
 			c.violate("case-panic:"+kind, "a real function panicked on this case", fmt.Sprintf("%s case=%s panic=%v", kind, desc, r))
 		}
-	case <-time.After(120 * time.Second):
+	case <-time.After(30 * time.Second):
+		c15HungFamilies[kind] = true
 		c.violate("case-hang:"+kind, "a real function did not return on this case", fmt.Sprintf("%s case=%s", kind, desc))
 	}
 }
